@@ -316,6 +316,13 @@ class Ctx:
         self.budget_s = float(os.environ.get('VERIF_BUDGET_S', '0')) or (100 if tier == 'quick' else 1500)
         self.replay_case = None
 
+    def reseed(self, seed):
+        """fresh random streams for an extra round (same derivation as a run with VERIF_SEED=seed)"""
+        import numpy as np
+        self.rng = random.Random((seed * 1000003) ^ int(self.pid[1:]))
+        self.np_rng = np.random.default_rng((seed * 7919 + int(self.pid[1:])) % (2**32))
+        self.round_seed = seed
+
     @property
     def quick(self):
         return self.tier == 'quick'
@@ -384,6 +391,37 @@ def jsonable(o):
 
 
 # ----------------------------------------------------------------------------------------------
+# source fingerprints: which library files differ from the tree the checks were last validated on
+# ----------------------------------------------------------------------------------------------
+
+PINS = VERIF / 'harness' / 'source_pins.json'
+
+
+def source_fingerprints(repo=None):
+    repo = Path(repo or os.environ.get('VERIF_REPO', '/repo'))
+    out = {}
+    for f in sorted((repo / 'pyamg').rglob('*')):
+        if f.suffix not in ('.py', '.h') or not f.is_file():
+            continue
+        rel = f.relative_to(repo).as_posix()
+        if '/tests/' in rel or rel.endswith('version.py') or '_bind.' in rel:
+            continue
+        out[rel] = hashlib.sha256(f.read_bytes()).hexdigest()[:16]
+    return out
+
+
+def source_drift():
+    """library files (pyamg/**/*.py, amg_core/*.h; tests excluded) whose content differs from
+    harness/source_pins.json (written by `translate.py --pin` for the tree every check was validated on)"""
+    try:
+        pins = json.loads(PINS.read_text())
+    except (OSError, ValueError):
+        return []
+    cur = source_fingerprints()
+    return sorted(f for f in set(pins) | set(cur) if pins.get(f) != cur.get(f))
+
+
+# ----------------------------------------------------------------------------------------------
 # main entry: run one property check
 # ----------------------------------------------------------------------------------------------
 
@@ -412,6 +450,22 @@ def run_check(pid, tier, seed, replay=None):
     else:
         # phase 1: corpus + correspondence + cheap search
         mod.run(ctx)
+        # phase 1b: the library source differs from the tree this check was validated on -> the change
+        # is what has to be judged: spend more rounds (fresh random streams, as VERIF_SEED would give)
+        drift = source_drift()
+        if drift:
+            print(f'NOTE: {len(drift)} library file(s) differ from the pinned tree ({", ".join(drift[:4])}'
+                  f'{", ..." if len(drift) > 4 else ""}): extra rounds')
+            cap = float(os.environ.get('VERIF_DRIFT_CAP_S', '0')) or (150 if tier == 'quick' else 2400)
+            k = 0
+            while (not _unlisted(ctx, known) and not ctx.corr_fail and k < (4 if tier == 'quick' else 2)):
+                per_round = (time.time() - t0) / (k + 1)
+                if time.time() - t0 + per_round > cap:
+                    break
+                k += 1
+                ctx.reseed(seed + 104729 * k)
+                mod.run(ctx)
+            ctx.features['drift_extra_rounds'] = k
         # phase 2: something broke -> deeper search on the real code
         if (ctx.corr_fail or not lean['ok']) and not _unlisted(ctx, known):
             ctx.deep = True
@@ -485,6 +539,7 @@ def run_check(pid, tier, seed, replay=None):
                 'partial_theorems': meta.get('partial', []) + ctx.partial,
                 'known_findings_seen': sorted(printed_known),
                 'lean_wall_s': lean['wall_s'],
+                'source_drift': source_drift(),
                 'exhaustive': False,
             },
             'assumptions': meta.get('assumptions', []) + ctx.assumptions,
